@@ -12,7 +12,7 @@ CHECKS = {
     design_ref="DESIGN.md section 4, C19"),
  "C20": dict(
     engine="hypothesis (model-based operation sequences)",
-    technique="model-based testing: generated read/peek/seek/tell sequences compared step by step with io.BytesIO over the window slice, LRU clock driven by the case",
+    technique="model-based testing: generated read/peek/seek/tell sequences compared step by step with io.BytesIO over the window slice (explicit-size and open-ended windows, source with read and readinto), LRU clock driven by the case",
     text="Search, not proof: 40k (quick) to 3M (thorough) generated configurations x operation sequences of up to 40 steps over files of 0-300 position-coded bytes, so buffer boundaries, evictions and window edges are dense.",
     note="Reference model: io.BytesIO(file[offset:offset+size]). The module's time source is replaced by a case-driven sequence; underlying object is BytesIO, an unbuffered real file, or data=.",
     design_ref="DESIGN.md section 4, C20"),
@@ -60,7 +60,7 @@ CHECKS = {
     design_ref="DESIGN.md section 4, C03"),
  "C07": dict(
     engine="hypothesis",
-    technique="round-trip of every registered option (discovered at run time) through to_string -> URL -> werkzeug -> from_string with type-directed value generators; differential: query strings of a manifest's init/media URLs re-parsed by the media route's own option parser and compared field by field with what the manifest request resolved (required-forwarding table taken from the property statement)",
+    technique="round-trip of every registered option (discovered at run time) through to_string -> URL -> werkzeug -> from_string with type-directed value generators, and through the real container path (parsed options -> generate_cgi_parameters_string -> URL -> parsed options); differential: query strings of a manifest's init/media URLs re-parsed by the media route's own option parser and compared field by field with what the manifest request resolved (required-forwarding table taken from the property statement)",
     text="Search, not proof: 40k/3M generated (option, value) pairs and 1.5k/150k manifest requests per tier; enumerated choices of every option are always in the value pool.",
     note=SHIMS + ". The server's own option parser is used deliberately on the media side. One open known finding (C07-K1: licence URLs containing '+' or %-escapes are unquoted twice).",
     design_ref="DESIGN.md section 4, C07"),
@@ -108,13 +108,13 @@ CHECKS = {
     design_ref="DESIGN.md section 4, C18"),
  "C15": dict(
     engine="enumeration + hypothesis (token sequences)",
-    technique="exhaustive (operation x role x authentication) matrix and route sweep against a reference authorisation table written from the property statement, state compared through raw SQL snapshots; model-based CSRF token sequences (issue / use / reuse / cross-service / cross-session / tamper / expire under the harness clock)",
+    technique="exhaustive (operation x role x authentication) matrix and route sweep against a reference authorisation table written from the property statement, state compared through raw SQL snapshots; model-based CSRF token sequences (issue / use / reuse / cross-service / cross-session / tamper / clock steps around the replay-record lifetime with intervening logins)",
     text="Search over a finite domain plus generated sequences: every one of 30 management operations x 4 roles x cookie/JWT/none and every routable rule x role is enumerated in both tiers; 1.6k/60k generated CSRF token sequences per tier.",
     note=SHIMS + ". flask_login is a stand-in (vt/shims): session-cookie authentication is the stand-in's, the permission decorators and CSRF code are the repository's.",
     design_ref="DESIGN.md section 4, C15"),
  "C16": dict(
     engine="hypothesis + atheris (libFuzzer)",
-    technique="(a) generated requests over every rule of app.url_map (discovered at run time) x query strings from every registered option name with type-confused, boundary and hostile values x streams with missing pieces; oracle: status < 500 unless the request asked for it, no exception reaches Flask. (b) corrupt MP4: structured mutations placed by an independent box walker, and coverage-guided raw bytes (atheris), fed to Mp4Atom.load under a deterministic read budget, a call budget (sys.monitoring) and an address-space limit, and uploaded / indexed / served through every route that reads the file. (c) error-injection request sequences against a reference counter model",
+    technique="(a) generated requests over every rule of app.url_map (discovered at run time) x query strings from every registered option name with type-confused, boundary and hostile values x option bundles that only bite together (feature switch + member) x streams with missing pieces, option-consuming routes weighted by endpoint name; oracle: status < 500 unless the request asked for it, no exception reaches Flask. (b) corrupt MP4: structured mutations placed by an independent box walker, and coverage-guided raw bytes (atheris), fed to Mp4Atom.load under a deterministic read budget, a call budget (sys.monitoring) and an address-space limit, and uploaded / indexed / served through every route that reads the file. (c) error-injection request sequences against a reference counter model",
     text="Search, not proof: 40k/3M generated requests, 1.6k/300k mutated files, 16k/3.2M fuzzer executions and 1.2k/80k injection sessions per tier; anonymous and plain-user roles for (a) so that stored state stays constant, media role with database restore per case for (b).",
     note=SHIMS + ". Wall-clock watchdogs only mark a case inconclusive (counted in evidence); non-termination of the parser is decided by the read/call budgets. The async inspect-media POST cannot run here (asgiref missing).",
     design_ref="DESIGN.md section 4 C16 and sections 10.2, 10.7"),
